@@ -94,6 +94,53 @@ fn connect_phase(rep: &mut Rep) {
             }
         }
     }
+    // AUTH challenges of every size class (a Kerberos / SCRAM token is easily larger than 127 bytes): AuthRsp with the data intact,
+    // for the challenge answering CONNECT and for the one answering the client's AUTH
+    for (k, &n) in [0usize, 1, 100, 113, 114, 115, 116, 117, 127, 128, 150, 16_370, 16_384, 20_000, 65_000].iter().enumerate() {
+        let id = format!("auth-challenge:{n}");
+        idx += 1;
+        if !rep.take(idx, &id) {
+            continue;
+        }
+        let mut sim = Sim::new(rep.seed);
+        sim.cmd(Cmd::Connect(ConnSpec { auth_method: Some("GSSAPI".into()), auth_data: Some(vec![1]), ..Default::default() }));
+        sim.settle();
+        let mut ok = true;
+        for round in 0..2usize {
+            let data: Vec<u8> = (0..n + round).map(|j| (j * 7 + k + round) as u8).collect();
+            let mut props = vec![Prop::str(21, "GSSAPI"), Prop::bin(22, &data)];
+            if round == 1 {
+                props.push(Prop::str(31, "continue"));
+                props.push(Prop::pair("step", "2"));
+            }
+            sim.feed_packet(&SPacket::Auth { reason: Some(0x18), props });
+            sim.settle();
+            let call = if round == 0 { "connect" } else { "authorize" };
+            match sim.last_ctx_result(call) {
+                Some(CtxOut::Conn(ConnOut::Auth(a))) if a.reason == 0x18 && a.data.as_deref() == Some(&data[..]) && a.method.as_deref() == Some("GSSAPI") => {}
+                other => {
+                    ok = false;
+                    viol(rep, format!("C13/{call}-auth-challenge-result"), &id, format!("AUTH challenge (reason 0x18) with {} bytes of authentication data must make {call}() return AuthRsp with that data; got {:?}", data.len(), other.map(|o| brief_ctx(&o))), &sim);
+                    break;
+                }
+            }
+            sim.cmd(Cmd::Authorize(AuthSpec { reason: Some(0x18), method: Some("GSSAPI".into()), data: Some(vec![2, round as u8]), user_props: vec![] }));
+            sim.settle();
+        }
+        if ok {
+            sim.feed_packet(&SPacket::Connack { session_present: false, reason: 0, props: vec![Prop::str(21, "GSSAPI"), Prop::bin(22, &vec![9u8; n])] });
+            sim.settle();
+            if !matches!(sim.last_ctx_result("authorize"), Some(CtxOut::Conn(ConnOut::Connack(_)))) {
+                viol(rep, "C13/authorize-wrong-result/connack-after-challenges".into(), &id, format!("CONNACK after two AUTH rounds: authorize() returned {:?}", sim.last_ctx_result("authorize").map(|o| brief_ctx(&o))), &sim);
+            }
+        }
+        for p in sim.panics.clone() {
+            viol(rep, format!("C13/panic/{p}"), &id, format!("panic: {p}"), &sim);
+        }
+        rep.add("evaluations", 1);
+        rep.add("auth_challenge_sizes_checked", 1);
+        rep.distinct(&("auth-challenge", n));
+    }
     // a long CONNACK (remaining length needs 2 bytes) arriving in pieces must still give ConnectRsp
     {
         let long = "r".repeat(150);
